@@ -118,19 +118,23 @@ pub fn build(s: &Spec) -> BoxSource {
 /// `build_concat` with `observe` called on every ConcatSource under construction after each `add`
 /// (the same constructor calls as `build_concat`, in the same order)
 pub fn build_concat_observed(how: u8, children: &[Spec], observe: &mut dyn FnMut(&dyn rspack_sources::Source)) -> ConcatSource {
+  build_concat_observed_with(how, children, observe, false)
+}
+
+fn build_concat_observed_with(how: u8, children: &[Spec], observe: &mut dyn FnMut(&dyn rspack_sources::Source), stale: bool) -> ConcatSource {
   match how {
     3 if !children.is_empty() && children.iter().all(|c| matches!(c, Spec::Concat { .. })) => {
       let items: Vec<ConcatSource> = children
         .iter()
         .map(|c| match c {
-          Spec::Concat { how, children } => build_concat_observed(*how, children, observe),
+          Spec::Concat { how, children } => build_concat_observed_with(*how, children, observe, stale),
           _ => unreachable!(),
         })
         .collect();
       ConcatSource::new(items)
     }
     0 | 3 => {
-      let items: Vec<BoxSource> = children.iter().map(|c| build_observed(c, observe)).collect();
+      let items: Vec<BoxSource> = children.iter().map(|c| build_observed_with(c, observe, stale)).collect();
       ConcatSource::new(items)
     }
     _ => {
@@ -138,12 +142,14 @@ pub fn build_concat_observed(how: u8, children: &[Spec], observe: &mut dyn FnMut
       for x in children {
         match x {
           Spec::Concat { how: h2, children: ch2 } if how == 1 => {
-            let inner = build_concat_observed(*h2, ch2, observe);
+            let inner = build_concat_observed_with(*h2, ch2, observe, stale);
             c.add(inner)
           }
-          _ => c.add(build_observed(x, observe)),
+          _ => c.add(build_observed_with(x, observe, stale)),
         }
-        observe(&c);
+        if !stale {
+          observe(&c);
+        }
       }
       c
     }
@@ -154,19 +160,35 @@ pub fn build_concat_observed(how: u8, children: &[Spec], observe: &mut dyn FnMut
 /// construction after each mutating call (replace / insert / add), i.e. the tree is built
 /// through a history of the form mutate, observe, mutate, observe, ...
 pub fn build_observed(s: &Spec, observe: &mut dyn FnMut(&dyn rspack_sources::Source)) -> BoxSource {
+  build_observed_with(s, observe, false)
+}
+
+/// Like `build_observed`, but the LAST mutating call of every ReplaceSource is not followed by an
+/// observer and ConcatSources are not observed (that would observe their finished children): each
+/// ReplaceSource with >= 2 replacements ends up observed, then mutated again, i.e. its lazily
+/// computed order is stale when the tree is handed out.  Same constructor calls as `build`.
+pub fn build_stale(s: &Spec, observe: &mut dyn FnMut(&dyn rspack_sources::Source)) -> BoxSource {
+  build_observed_with(s, observe, true)
+}
+
+fn build_observed_with(s: &Spec, observe: &mut dyn FnMut(&dyn rspack_sources::Source), stale: bool) -> BoxSource {
   match s {
-    Spec::Concat { how, children } => build_concat_observed(*how, children, observe).boxed(),
+    Spec::Concat { how, children } => build_concat_observed_with(*how, children, observe, stale).boxed(),
     Spec::Replace { inner, repls } => {
-      let mut r = ReplaceSource::new(build_observed(inner, observe));
-      observe(&r);
-      for p in repls {
-        apply_repl(&mut r, p);
+      let mut r = ReplaceSource::new(build_observed_with(inner, observe, stale));
+      if !stale {
         observe(&r);
+      }
+      for (i, p) in repls.iter().enumerate() {
+        apply_repl(&mut r, p);
+        if !stale || i + 1 < repls.len() {
+          observe(&r);
+        }
       }
       r.boxed()
     }
-    Spec::Cached(inner) => CachedSource::new(build_observed(inner, observe)).boxed(),
-    Spec::Boxed(inner) => build_observed(inner, observe).boxed(),
+    Spec::Cached(inner) => CachedSource::new(build_observed_with(inner, observe, stale)).boxed(),
+    Spec::Boxed(inner) => build_observed_with(inner, observe, stale).boxed(),
     leaf => build(leaf),
   }
 }
